@@ -716,6 +716,81 @@ theorem ibisFallback_eval_eq_stats (hcc : covarCols s ≠ []) (hG : 2 ≤ (T.fil
 
 end Fallback
 
+/-! ## the Ibis pipelines without grouping (power analysis on an Ibis table) -/
+
+section IbisUngrouped
+variable (s : ColSpec) (T : List (Row κ α))
+
+def fbDemU : List (Name × Expr) :=
+  (covarCols s).map (fun c => (Name.demean c, Expr.sub (ucol c) (.mean (.cast (ucol c)))))
+
+theorem fbQueryU_eq (h : covarCols s ≠ []) :
+    ibisFallbackQuery false s = [Stage.withColumns (fbDemU s), Stage.aggregate false (fbAgg s)] := by
+  unfold ibisFallbackQuery fbDemU fbAgg
+  have : (covarCols s).isEmpty = false := by
+    cases hc : covarCols s with
+    | nil => exact absurd hc h
+    | cons a l => rfl
+  simp [this]
+
+theorem fbU_dem_val (c : String) (hc : c ∈ covarCols s) (r : Row κ α) :
+    (wcRow (fbDemU s) T r).val (Name.demean c) = r.val (.user c) - smean T (fun r' => r'.val (.user c)) := by
+  have hl : lookupDef (fbDemU s) (Name.demean c) = some (Expr.sub (ucol c) (.mean (.cast (ucol c)))) :=
+    lookupDef_map (covarCols s) Name.demean _ (fun a b h => by injection h) c hc
+  rw [wcRow_val_some _ _ _ _ _ hl]
+  simp [evalRow, ucol]
+
+theorem fbU_user_val (c : String) (r : Row κ α) : (wcRow (fbDemU s) T r).val (Name.user c) = r.val (.user c) := by
+  apply wcRow_val_none
+  exact lookupDef_map_none _ _ _ _ (fun c' => by simp)
+
+/-- **Ibis fallback, ungrouped = the sample statistics of the whole table** (one row) -/
+theorem ibisFallbackU_eval_eq_stats (hcc : covarCols s ≠ []) (hn : 2 ≤ T.length) :
+    ∃ r, eval (ibisFallbackQuery false s) T = [r] ∧
+      (s.has_count = true → r.val Name.count = (T.length : α)) ∧
+      (∀ c ∈ s.mean_cols, r.val (Name.mean c) = smean T (fun r => r.val (.user c))) ∧
+      (∀ c ∈ s.var_cols, r.val (Name.var c) = svar T (fun r => r.val (.user c))) ∧
+      (∀ p ∈ s.cov_cols, r.val (Name.cov p.1 p.2)
+        = scov T (fun r => r.val (.user p.1)) (fun r => r.val (.user p.2))) := by
+  rw [fbQueryU_eq s hcc]
+  simp only [eval, List.foldl_cons, List.foldl_nil, evalStage, withColumns_eq, aggregate, Bool.false_eq_true, if_false]
+  have hlen : (T.map (wcRow (fbDemU s) T)).length = T.length := by simp
+  obtain ⟨r0, hr0⟩ : ∃ r0, (T.map (wcRow (fbDemU s) T)).head? = some r0 := by
+    cases h : T.map (wcRow (fbDemU s) T) with
+    | nil => rw [h] at hlen; simp at hlen; omega
+    | cons a l => exact ⟨a, rfl⟩
+  refine ⟨_, rfl, ?_, ?_, ?_, ?_⟩
+  · intro hc
+    simp only [aggRow, fb_lookup_count s hc, hr0, evalRow, hlen]
+  · intro c hc
+    simp only [aggRow, fb_lookup_mean s c hc, hr0, evalRow, ucol]
+    unfold smean
+    rw [S_map, hlen]
+    congr 1
+    apply S_congr
+    intro r _
+    rw [fbU_user_val]
+  · intro c hc
+    have hcv := mem_var_covar s c hc
+    simp only [aggRow, fb_lookup_var s c hc, hr0, evalRow, hlen, Int.cast_one]
+    unfold svar scov
+    congr 1
+    rw [S_map]
+    apply S_congr
+    intro r _
+    rw [fbU_dem_val s T c hcv]
+  · intro p hp
+    obtain ⟨hc1, hc2⟩ := mem_cov_covar s p hp
+    simp only [aggRow, fb_lookup_cov s p hp, hr0, evalRow, hlen, Int.cast_one]
+    unfold scov
+    congr 1
+    rw [S_map]
+    apply S_congr
+    intro r _
+    rw [fbU_dem_val s T p.1 hc1, fbU_dem_val s T p.2 hc2]
+
+end IbisUngrouped
+
 /-! ## the native Ibis branch: `var(how="sample")` / `cov(how="sample")` of the float-cast columns,
 grouped by the variant — the meaning of the backend's operators is the specification itself (trusted);
 what is tied to the code is that exactly these operators, on exactly these columns and groups, are
